@@ -146,9 +146,30 @@ func supplyObserver(prev *map[uint64]dispSnap, minterInit *bool) func(h *Hist, b
 		if msg, broken := bankkeeper.TotalSupply(c.App.BankKeeper)(ctx); broken {
 			inv = "broken:" + shortLog(msg)
 		}
-		h.Out = append(h.Out, fmt.Sprintf("B h=%d err= supply=%s tbr=%s fee=%s oracle=%s tips=%s dispute=%s bridge=%s inv=%s ev=%s txs=%s",
+		// ledgers the escrow accounts have to cover (C04): unpaid tips on open queries, selector reward credits
+		qsum := math.ZeroInt()
+		if it, err := c.App.OracleKeeper.Query.Iterate(ctx, nil); err == nil {
+			for ; it.Valid(); it.Next() {
+				if q, err := it.Value(); err == nil {
+					qsum = qsum.Add(q.Amount)
+				}
+			}
+			it.Close()
+		}
+		tipsum := math.LegacyZeroDec()
+		ntips := 0
+		if it, err := c.App.ReporterKeeper.SelectorTips.Iterate(ctx, nil); err == nil {
+			for ; it.Valid(); it.Next() {
+				if v, err := it.Value(); err == nil {
+					tipsum = tipsum.Add(v)
+					ntips++
+				}
+			}
+			it.Close()
+		}
+		h.Out = append(h.Out, fmt.Sprintf("B h=%d err= supply=%s tbr=%s fee=%s oracle=%s tips=%s dispute=%s bridge=%s inv=%s qsum=%s tipsum=%s ntips=%d ev=%s txs=%s",
 			br.Height, c.Supply(), c.ModBal("time_based_rewards"), c.ModBal("fee_collector"), c.ModBal("oracle"), c.ModBal("tips_escrow_pool"),
-			c.ModBal("dispute"), c.ModBal("bridge"), inv, strings.Join(ev, ","), strings.Join(txClasses(br, pend), ",")))
+			c.ModBal("dispute"), c.ModBal("bridge"), inv, qsum, tipsum.BigInt().String(), ntips, strings.Join(ev, ","), strings.Join(txClasses(br, pend), ",")))
 	}
 }
 
@@ -267,6 +288,72 @@ func runSupplyHist(t *testing.T, in []string) string {
 // block is produced (no FinalizeBlock error/panic, no rejected honest proposal).
 func init() {
 	register(&Family{Name: "nohalt", Gen: genNoHaltHist, Run: runSupplyHist})
+	// family "escrow" (C04): reward-heavy histories (tips, cycle-list reports by several reporters with selectors and
+	// commissions, tip withdrawals); the monitor compares module balances with the ledgers they have to cover
+	register(&Family{Name: "escrow", Gen: genEscrowHist, Run: runSupplyHist})
+}
+
+func genEscrowHist(r *Rng, i int, tier string) []string {
+	nv := 2 + r.Intn(2)
+	na := 4
+	var ops []string
+	add := func(s string, a ...any) { ops = append(ops, fmt.Sprintf(s, a...)) }
+	blk := func() { add("blk %d", r.Pick(1000, 1000, 1500, 5000, 60000)) }
+	blk()
+	blk()
+	rate := func() int64 { return r.Pick(0, 1, 500000000000000000, 1000000000000000000, 250000000000000000) }
+	add("mkrep v0 %d 1000000", rate())
+	add("mkrep v1 %d 1000000", rate())
+	blk()
+	if r.Chance(4, 5) {
+		add("gov mintinit")
+		blk()
+		add("govvote")
+		add("blk 1000")
+		add("blk 21000")
+	}
+	// selectors: accounts delegate to one or two validators, then select a reporter
+	for a := 0; a < na; a++ {
+		if r.Chance(3, 4) {
+			add("del a%d v%d %d", a, r.Intn(nv), r.Range(2e6, 3e7))
+			if r.Chance(1, 2) {
+				add("del a%d v%d %d", a, r.Intn(nv), r.Range(2e6, 3e7))
+			}
+			blk()
+			add("sel a%d v%d", a, r.Intn(2))
+		}
+	}
+	blk()
+	nops := 30 + r.Intn(40)
+	if tier == "thorough" {
+		nops = 80 + r.Intn(100)
+	}
+	for k := 0; k < nops; k++ {
+		acct := fmt.Sprintf("a%d", r.Intn(na))
+		switch r.Intn(10) {
+		case 0, 1:
+			add("tip %s q%d %d", acct, r.Intn(3), r.Pick(1, 50, 1000003, r.Range(1, 1e9)))
+		case 2, 3, 4:
+			add("rep v%d q%d %064x", r.Intn(2), r.Intn(3), r.Range(1, 1e9))
+		case 5:
+			add("wtip %s v%d", []string{acct, "v0", "v1"}[r.Intn(3)], r.Intn(nv))
+		case 6:
+			add("sw %s v%d", acct, r.Intn(2))
+		case 7:
+			add("del %s v%d %d", acct, r.Intn(nv), r.Range(1e6, 2e7))
+		case 8:
+			add("undel %s v%d %d", acct, r.Intn(nv), r.Range(1e6, 2e7))
+		default:
+			blk()
+		}
+		if r.Chance(1, 2) {
+			blk()
+		}
+	}
+	blk()
+	blk()
+	blk()
+	return []string{fmt.Sprint(nv), fmt.Sprint(na), strings.Join(ops, ";")}
 }
 
 func hostileValue(r *Rng) string {
